@@ -218,6 +218,22 @@ fn judge_f64(st: &mut Stats, rng: &mut Rng) {
             (Err(step), Outcome::Panic { msg, .. }) => { st.count("solve:f64:exact-refused"); if !refusal_ok(&msg) { st.violation("C05:solve:f64:refusal-message", format!("step {} message '{}'; {}", step, msg, desc())); } }
             _ => {}
         }
+        // the same system in units of 2^-e, e = 1030..1068: every entry, every pivot (ud_k * 2^-e) and the right-hand side are
+        // subnormal yet exactly representable and the elimination stays exact; a non-zero subnormal pivot is not a zero pivot
+        if rng.chance(0.4) {
+            let e = rng.int(1030, 1068) as i32;
+            let sc = |v: f64| v * 2f64.powi(-e / 2) * 2f64.powi(-(e - e / 2));
+            let ts = Tri { sub: tf.sub.iter().map(|v| sc(*v)).collect::<Vec<f64>>(), main: tf.main.iter().map(|v| sc(*v)).collect(), sup: tf.sup.iter().map(|v| sc(*v)).collect() };
+            let rs: Vec<f64> = rf.iter().map(|v| sc(*v)).collect();
+            let ms = ts.build(0);
+            st.eval();
+            match (thomas_exact(&tr, &rr), catch(|| ms.solve(&Vector::create(rs.clone())))) {
+                (Ok(x), Outcome::Ok(y)) => { let xe: Vec<f64> = x.iter().map(|v| v.to_f64()).collect(); if y.vec != xe { st.violation("C05:solve:f64:subnormal-scale", format!("system scaled by 2^-{}: solve = {:?} exact {:?}; {}", e, y.vec, xe, desc())); } st.count("solve:f64:subnormal-scale-solved"); }
+                (Ok(_), o) => st.violation("C05:solve:f64:refused-without-zero-pivot", format!("system scaled by 2^-{} (all pivots non-zero subnormals): {}; {}", e, o.describe(), desc())),
+                (Err(step), Outcome::Ok(y)) => st.violation("C05:solve:f64:returned-despite-zero-pivot", format!("system scaled by 2^-{}: zero pivot at step {} but solve returned {:?}; {}", e, step, y.vec, desc())),
+                _ => {}
+            }
+        }
         // a tiny but NON-zero last pivot: sub[n-2] is chosen so that main[n-1] - sub*gamma == ulp(main[n-1]) exactly
         // (pred(m) is representable); elimination meets no zero pivot, so the solver must not refuse
         if n >= 2 && zero_at.is_none() && rng.chance(0.5) {
@@ -346,7 +362,17 @@ fn history_case(st: &mut Stats, rng: &mut Rng) {
     for _ in 0..rng.usize(3, 14) {
         let c = Rat::int(rng.nzint(4));
         let n = t.n();
-        match rng.below(11) {
+        match rng.below(12) {
+            11 => { // the receiver takes over another matrix (of another size) through clone_from / assignment of a clone
+                let n2 = rng.usize(1, 7);
+                let t2 = gen_tri::<Rat>(rng, n2, 0, &rv);
+                let m2 = t2.build(0);
+                let via = rng.bool();
+                log.push(format!("{} matrix of size {} sub={:?} main={:?} sup={:?}", if via { "clone_from" } else { "= clone of" }, n2, t2.sub, t2.main, t2.sup));
+                if !catch(|| if via { m.clone_from(&m2) } else { m = m2.clone() }).is_ok() { st.violation("C05:history:clone_from:panic", format!("after {:?}", log)); return; }
+                t = t2;
+                if m.size() != t.n() { st.violation("C05:history:clone_from:size", format!("size() = {} after taking over a matrix of size {}; {:?}", m.size(), t.n(), log)); return; }
+            }
             0 | 1 => { log.push("det()".into()); if let Outcome::Ok((det, _, _)) = catch(|| exact_det_rank_inv(&t.dense())) { st.eval(); match catch(|| m.det()) { Outcome::Ok(x) => if x != det { st.violation("C05:history:det:stale-or-wrong", format!("det = {:?} expected {:?} after {:?}", x, det, log)); return; }, Outcome::Overflow => return, o => { st.violation("C05:history:det:panic", format!("{} after {:?}", o.describe(), log)); return; } } } }
             2 | 3 => { let r: Vec<Rat> = (0..n).map(|_| rv(rng)).collect(); log.push(format!("solve({:?})", r));
                 if let Outcome::Ok(model) = catch(|| thomas_exact(&t, &r)) { st.eval(); match (model, catch(|| m.solve(&vec_to_ohsl(&r)))) {
